@@ -399,7 +399,7 @@ def check_message_log(ctx, impl, cnt, rng, n):
 def run(ctx):
     cnt = Counter()
     ac.install_pending(ctx)
-    ctx.prove(['gen_pyclasses', 'gen_annvocab'], ['GIVerif.Props.C11'], 'GIVerif.Props.C11')
+    ctx.prove(['gen_pyclasses', 'gen_annvocab', 'gen_anncase'], ['GIVerif.Props.C11'], 'GIVerif.Props.C11')
     ctx.log('proofs checked')
     impl = ac.Impl()
     voc = ac.vocab(impl.ap)
@@ -456,10 +456,14 @@ def run(ctx):
     samples.append({'layer': 'block', 'text': texts[-1][0], 'lineno': texts[-1][1]})
     ctx.log('block level done')
 
+    # ---- layer 3: the block state machine (every diagnostic with line, caret and quoted line), model vs real
+    nd4, nb4 = ac.check_blocks(ctx, impl, cnt, 'c11', texts)
+    ctx.log('block model correspondence done')
+
     dist = dict(cnt.counts)
     dist.update({'verdict:' + k: v for k, v in verdicts.counts.items()})
     ctx.coverage.update({
-        'evaluations': len(l1) + nl2 + len(texts) + ncount + cnt.counts.get('log:run', 0),
+        'evaluations': len(l1) + nl2 + len(texts) + ncount + cnt.counts.get('log:run', 0) + nb4,
         'distinct_nontrivial': cnt.n_distinct(),
         'rule': 'seeded generators. Tokenizer: annotation fields from the vocabulary with 0-5 mutations (unbalanced / '
                 'nested parentheses, <> forms, in-out/attribute, "=", upper case, Unicode spaces, non-ASCII) plus pure '
@@ -473,7 +477,7 @@ def run(ctx):
         'distribution': dist,
         'corpus_cases': len(corpus),
         'xml_test_inputs': len(xml),
-        'correspondence_disagreements': {'layer1': nd1, 'layer2': nd2, 'message_log': nd3},
+        'correspondence_disagreements': {'layer1': nd1, 'layer2': nd2, 'message_log': nd3, 'layer3': nd4},
         'layers': {'1 tokenizer': 'modelled, proved (C11_ann_total, C11_atomic_annotations, C11_caret, ...), corresponded',
                    '2 line matchers': 'modelled, corresponded',
                    'message log': 'modelled, proved (C11_count, C11_warn_fatal), corresponded',
